@@ -370,6 +370,15 @@ class SInt(Sym):
 
     __rmul__ = __mul__
 
+    def __rpow__(self, base):
+        """2 ** k for an index k that the path bounds to 0 <= k < 20: a bit-vector key (anything else exceeds the encoding)"""
+        if base != 2:
+            raise OutOfSubset('only 2**k is modelled')
+        ctx = current()
+        if ctx is None or ctx._check(z3.Not(z3.And(self.t >= 0, self.t < 20))) != z3.unsat:
+            raise OutOfSubset('2**k with an exponent the path does not bound to 0 <= k < 20')
+        return SKey(z3.BitVecVal(1, WB) << z3.Int2BV(self.t, WB), 1, 1 << 19)
+
     def __mod__(self, o):
         if isinstance(o, int) and o > 0:
             return SInt(self.t % o)
